@@ -438,7 +438,7 @@ def shrink_history(ctx, exe, ops, i, against_model):
     return pre + [small]
 
 
-def examine(ctx, exe, ops, label, stats):
+def examine(ctx, exe, ops, label, stats, spec_only=False):
     """run ops through implementation and model; report the first op that contradicts the property (violation,
     shrunk) or on which model and implementation differ (broken correspondence).  Returns #ops that agreed."""
     if not ops:
@@ -448,6 +448,8 @@ def examine(ctx, exe, ops, label, stats):
     agreed = 0
     for i, (op, io, mo) in enumerate(zip(ops, impl, model)):
         why = op.spec(io)
+        if spec_only and why is None:
+            continue                         # deep search: the model is already known to differ; only the property's own clauses count
         if why is None and io == mo:
             agreed += 1
             stats['bytes_returned'] = stats.get('bytes_returned', 0) + sum(l.count('@') for l in io)
@@ -495,7 +497,7 @@ def deep_search(ctx, exe, rng, stats):
         for i, (op, io) in enumerate(zip(ops, impl)):
             ctx.count(op.line())
             if op.spec(io) is not None:
-                examine(ctx, exe, ops[:i + 1][-400:], 'deep search', stats)
+                examine(ctx, exe, ops[:i + 1][-400:], 'deep search', stats, spec_only=True)
                 return True
     return False
 
